@@ -231,6 +231,8 @@ def number_sites(kind, line):
             sites = [idx[j] for j in range(1, len(words)) if RE_NUM.match(words[j])]
         elif re.match(r'^m\d+$', w0):
             sites = [idx[j] for j in range(2, len(words), 2) if RE_NUM.match(words[j])]
+        elif w0.startswith('imp:'):
+            sites = [idx[j] for j in range(1, len(words)) if RE_NUM.match(words[j])]
     elif kind == 'c':
         if len(words) > 2 and words[1] != '0' and words[1].lower() != 'like' and RE_NUM.match(words[2]):
             dens = idx[2]
@@ -284,13 +286,16 @@ def shorthand_rewrites(line, kind):
             # 1 1 0 -> 1 r 0 ; x 2x -> x 2m ; a a+1 a+2 -> a 1i a+2
             for k in range(1, len(exp)):
                 try:
-                    a, b = float(exp[k - 1]), float(exp[k])
+                    a, b = fval(exp[k - 1]), fval(exp[k])
                 except ValueError:
                     continue
                 if a != 0 and b == 2 * a:
                     out.append(' '.join([words[0]] + exp[:k] + ['2m'] + exp[k + 1:]))
                 if k + 1 < len(exp):
-                    c = float(exp[k + 1])
+                    try:
+                        c = fval(exp[k + 1])
+                    except ValueError:
+                        continue
                     if b - a == c - b and b != a:
                         out.append(' '.join([words[0]] + exp[:k] + ['1i'] + exp[k + 1:]))
     if kind == 'c' and ' fill=' in line.lower():
@@ -367,7 +372,8 @@ def rewrites(text):
             if single and '$' not in L and '&' not in L and '\t' not in L:
                 toks, sites, dens = number_sites(kind, L)
                 for k in cap(sites):
-                    m = re.match(r'^(.*\()?(' + NUM + r')(\)*)$', toks[k])
+                    m = (re.match(r'^(imp:[a-zA-Z,]+=|[rR][hH][oO]=)(' + NUM + r')()$', toks[k])
+                         or re.match(r'^(.*\()?(' + NUM + r')(\)*)$', toks[k]))
                     pre, core, post = (m.group(1) or ''), m.group(2), m.group(3)
                     for alt in respellings(core):
                         nl = ' '.join(toks[:k] + [pre + alt + post] + toks[k + 1:])
